@@ -1,4 +1,4 @@
-\* MC_MxIOSpec_quick.cfg2
+\* two models, two names, two locations, two values: all histories of 3 operations
 CONSTANTS
   Models = {"M1", "M2"}
   BaseInit = {"M1"}
@@ -8,7 +8,7 @@ CONSTANTS
   PVals = {1, 2}
   MVals = {}
   WithDelSpace = FALSE
-  ExploreTainted = FALSE
+  OpenFindings = {"KF:C18.update-merges-specs"}
   MaxOps = 3
   Dump = TRUE
 VIEW View
@@ -20,4 +20,5 @@ INVARIANT Inv_C18_LocationsUnique
 INVARIANT Inv_C18_RejectedLeavesNothing
 INVARIANT Inv_C18_SanityChecks
 INVARIANT Inv_C18_SavedSpecsRoundTrip
+INVARIANT Inv_NoRepairedFinding
 CHECK_DEADLOCK FALSE
